@@ -536,7 +536,13 @@ fn gen_script(rng: &mut Rng, tier: Tier) -> Script {
             3 => format!("kill -s STOP %{j} 2>/dev/null"),
             4 => format!("kill -s CONT %{j} 2>/dev/null"),
             5 => format!("kill -s TERM %{j} 2>/dev/null"),
-            6 => "jobs >|/work/jl; jobsout /work/jl op".to_string(),
+            6 if rng.bool() => "jobs >|/work/jl; jobsout /work/jl op".to_string(),
+            // job ID operands, one of them twice
+            6 => {
+                let (a, b) = (rng.range(1, njobs), rng.range(1, njobs));
+                let c = rng.range(1, njobs);
+                format!("jobs %{a} %{a} %{b} %{c} >|/work/jl 2>|/work/je; jobsout /work/jl ops:{a},{b},{c} /work/je")
+            }
             7 => "jobs -l >/dev/null; jobs -n >/dev/null".to_string(),
             8 => format!("nap {}", rng.range(1, 6)),
             9 => format!("jobcheck 6{j}; fg %{j} >/dev/null 2>&1; jobcheck 7{j} fg:$?:{j}"),
@@ -674,14 +680,18 @@ fn check_script_run(s: &Script, obs: &Observed) -> Option<Viol> {
                     }
                     last = Some(e);
                 }
-                "jobsout" => {
+                "jobsout" if e.a == 0 => {
                     if let Some(pre) = last {
+                        // (with job ID operands only the named jobs are listed and removed)
+                        let named: Option<Vec<usize>> = e.text.strip_prefix("ops:").map(|l| l.split(',').filter_map(|n| n.parse().ok()).collect());
                         let table = pre.text.split("jobs=").nth(1).and_then(|t| t.split(" cur=").next()).unwrap_or("");
                         let done: Vec<i32> = table
                             .split(',')
-                            .filter_map(|item| item.split_once(']').and_then(|(_, r)| r.split_once(':')))
-                            .filter(|(_, st)| st.starts_with("exited") || st.starts_with("signaled"))
-                            .filter_map(|(q, _)| q.parse().ok())
+                            .filter_map(|item| item.trim_start_matches('[').split_once(']'))
+                            .filter_map(|(i, r)| r.split_once(':').map(|(q, st)| (i, q, st)))
+                            .filter(|(_, _, st)| st.starts_with("exited") || st.starts_with("signaled"))
+                            .filter(|(i, _, _)| named.as_ref().is_none_or(|n| i.parse::<usize>().is_ok_and(|i| n.contains(&(i + 1)))))
+                            .filter_map(|(_, q, _)| q.parse().ok())
                             .collect();
                         pending = Some(done);
                     }
